@@ -1179,4 +1179,382 @@ theorem inv_stop {c : Cfg} {w : World} (h : Inv c w) : Inv c (step c w .stop).1 
       · exact hw
   exact this slots w h
 
+/-! ### the ghost heap is the replay of the printed allocator log -/
+
+theorem map_strip_set (l : List Block) (b : Nat) (blk x : Block) (hb : l[b]? = some blk) (hx : x.strip = blk.strip) :
+    (l.set b x).map Block.strip = l.map Block.strip := by
+  apply List.ext_getElem?
+  intro k
+  by_cases e : k = b
+  · subst e
+    have hlt : k < l.length := by
+      cases h : l[k]? with
+      | none => rw [h] at hb; cases hb
+      | some v => exact (List.getElem?_eq_some_iff.mp h).1
+    have hget : l[k] = blk := by
+      have := List.getElem?_eq_getElem hlt
+      rw [this] at hb; exact Option.some.inj hb
+    simp [hlt, hx, hget]
+  · simp [List.getElem?_set, Ne.symm e]
+
+theorem ghostReplay_snoc (l : List Event) (e : Event) : ghostReplay (l ++ [e]) = ghostStep (ghostReplay l) e := by
+  unfold ghostReplay; simp [List.foldl_append]
+
+theorem hl_of_eq {w w' : World} (h : HeapLog w) (hh : w'.heap = w.heap) (hl : w'.log = w.log) : HeapLog w' := by
+  unfold HeapLog at *; rw [hh, hl]; exact h
+
+theorem hl_cons_only {w w' : World} (h : HeapLog w) (hl : w'.log = w.log) (b : Nat) (f : Block → Block) (hf : ∀ blk, (f blk).strip = blk.strip)
+    (hh : w'.heap = match w.heap[b]? with | some blk => w.heap.set b (f blk) | none => w.heap) : HeapLog w' := by
+  unfold HeapLog at *
+  rw [hl, hh]
+  cases hb : w.heap[b]? with
+  | none => exact h
+  | some blk => simp only []; rw [map_strip_set _ _ blk _ hb (hf blk)]; exact h
+
+theorem hl_setImg {w : World} (h : HeapLog w) (s : Nat) (v : Option Img) : HeapLog (w.setImg s v) := hl_of_eq h rfl rfl
+
+theorem hl_alloc {w : World} (h : HeapLog w) (t n : Nat) : HeapLog (w.alloc t n).1 := by
+  rcases alloc_cases w t n with e | ⟨fa, e⟩
+  · rw [e]; exact hl_of_eq h rfl rfl
+  · rw [e]; unfold HeapLog at *
+    simp only [List.reverse_cons, List.map_append, List.map_cons, List.map_nil]
+    rw [ghostReplay_snoc, ← h]
+    simp [ghostStep, Block.strip]
+
+theorem hl_dealloc {w : World} (h : HeapLog w) (b n t : Nat) : HeapLog (w.dealloc b n t) := by
+  unfold HeapLog at *
+  unfold World.dealloc
+  simp only [List.reverse_cons]
+  rw [ghostReplay_snoc, ← h]
+  unfold ghostStep
+  simp only [List.getElem?_map]
+  cases hb : w.heap[b]? with
+  | none => simp [Block.strip]
+  | some blk => simp [List.map_set, Block.strip]
+
+theorem hl_heapset {w : World} (h : HeapLog w) (b : Nat) (f : Block → Block) (hf : ∀ blk, (f blk).strip = blk.strip) (log : List Event) (hl : log = w.log)
+    (imgs : Nat → Option Img) (ct dt : Nat) (fa fc : Option Nat) (ub : Bool) :
+    HeapLog { heap := (match w.heap[b]? with | some blk => w.heap.set b (f blk) | none => w.heap), log := log, imgs := imgs, ctor := ct, dtor := dt,
+              failA := fa, failC := fc, ub := ub } := by
+  unfold HeapLog at *
+  subst hl
+  simp only []
+  cases hb : w.heap[b]? with
+  | none => exact h
+  | some blk => simp only []; rw [map_strip_set _ _ blk _ hb (hf blk)]; exact h
+
+theorem hl_destruct {w : World} (h : HeapLog w) (o : Org) (b : Option Nat) (n : Nat) : HeapLog (w.destruct o b n) := by
+  have h0 : HeapLog (if o.nontrivial then { w with dtor := w.dtor + n } else w) := by
+    split
+    · exact hl_of_eq h rfl rfl
+    · exact h
+  unfold World.destruct
+  simp only []
+  generalize (if o.nontrivial then { w with dtor := w.dtor + n } else w) = w0 at h0 ⊢
+  cases b with
+  | none => simp only []; split <;> first | exact h0 | exact hl_of_eq h0 rfl rfl
+  | some b => simp only []; exact hl_heapset h0 b (fun blk => { blk with cons := blk.cons - n, over := blk.over || decide (blk.cons < n) }) (fun _ => rfl) _ rfl _ _ _ _ _ _
+
+theorem hl_grow {w : World} (h : HeapLog w) (b : Option Nat) (n : Nat) : HeapLog (w.grow b n) := by
+  unfold World.grow
+  cases b with
+  | none => simp only []; split <;> first | exact h | exact hl_of_eq h rfl rfl
+  | some b => simp only []; exact hl_heapset h b (fun blk => { blk with cons := blk.cons + n }) (fun _ => rfl) _ rfl _ _ _ _ _ _
+
+theorem hl_construct {w : World} (h : HeapLog w) (o : Org) (b : Option Nat) (n : Nat) : HeapLog (w.construct o b n).1 := by
+  unfold World.construct
+  split
+  · split
+    next k hk =>
+      split
+      · exact hl_of_eq h rfl rfl
+      · exact hl_grow (w := { w with ctor := w.ctor + n, failC := some (k - n) }) (hl_of_eq h rfl rfl) b n
+    · exact hl_grow (w := { w with ctor := w.ctor + n }) (hl_of_eq h rfl rfl) b n
+  · exact hl_grow h b n
+
+theorem hl_release {w : World} (h : HeapLog w) (o : Org) (i : Img) : HeapLog (release o w i) := by
+  unfold release
+  cases hm : i.mem with
+  | none => simp only []; exact hl_destruct h o none (i.w * i.h)
+  | some b =>
+    simp only []
+    have hd := hl_destruct h o (some b) (i.w * i.h)
+    split
+    · exact hl_dealloc hd b _ _
+    · exact hd
+
+theorem hl_pCtor {w : World} (h : HeapLog w) (c : Cfg) (o : Org) (s : Nat) (img0 : Img) (W H : Nat) (content : List Nat) (src : Option (Nat × Nat)) :
+    HeapLog (pCtor c o w s img0 W H content src).1 := by
+  unfold pCtor
+  simp only []
+  split
+  · split
+    · have hc := hl_construct h o none (W * H)
+      cases hres : w.construct o none (W * H) with
+      | mk w2 okc => rw [hres] at hc; cases okc <;> first | exact hl_setImg hc _ _ | exact hc
+    · split
+      · exact h
+      · exact hl_setImg h _ _
+  · have ha := hl_alloc h img0.tag (o.needed img0.align W H)
+    cases hal : w.alloc img0.tag (o.needed img0.align W H) with
+    | mk w1 ob =>
+      rw [hal] at ha
+      cases ob with
+      | none => exact ha
+      | some b =>
+        simp only []
+        have hc := hl_construct ha o (some b) (W * H)
+        cases hres : w1.construct o (some b) (W * H) with
+        | mk w2 okc =>
+          rw [hres] at hc
+          cases okc with
+          | true => exact hl_setImg hc _ _
+          | false => exact hl_dealloc hc _ _ _
+
+theorem hl_pDtor {w : World} (h : HeapLog w) (o : Org) (s : Nat) : HeapLog (pDtor o w s) := by
+  unfold pDtor; split
+  · exact hl_setImg (hl_release h o _) _ _
+  · exact h
+
+theorem hl_pSwap {w : World} (h : HeapLog w) (c : Cfg) (s s2 : Nat) : HeapLog (pSwap c w s s2).1 := by
+  unfold pSwap; split
+  · split
+    · exact hl_setImg (hl_setImg h _ _) _ _
+    · split
+      · exact hl_setImg (hl_setImg h _ _) _ _
+      · exact h
+  · exact h
+
+theorem hl_pReuse {w : World} (h : HeapLog w) (o : Org) (s W H : Nat) (content : List Nat) : HeapLog (pReuse o w s W H content).1 := by
+  unfold pReuse; split
+  next i hs =>
+    simp only []
+    have hc := hl_construct (hl_destruct h o i.mem (i.w * i.h)) o (Img.withView o i W H).mem (W * H)
+    cases hres : (w.destruct o i.mem (i.w * i.h)).construct o (Img.withView o i W H).mem (W * H) with
+    | mk w2 okc => rw [hres] at hc; cases okc <;> exact hl_setImg hc _ _
+  · exact h
+
+theorem hl_pAdopt {w : World} (h : HeapLog w) (o : Org) (s s2 : Nat) (t : Bool) : HeapLog (pAdopt o w s s2 t) := by
+  unfold pAdopt; split
+  · exact hl_setImg (hl_setImg (hl_release h o _) _ _) _ _
+  · exact h
+
+theorem hl_pRelease {w : World} (h : HeapLog w) (o : Org) (s : Nat) : HeapLog (pRelease o w s) := by
+  unfold pRelease; split
+  · exact hl_setImg (hl_release h o _) _ _
+  · exact h
+
+theorem hl_userFill {w : World} (h : HeapLog w) (s v : Nat) : HeapLog (userFill w s v) := by
+  unfold userFill; split
+  · exact hl_setImg h _ _
+  · exact h
+
+theorem hl_andThen (r : World × Outcome) (k : World → World × Outcome) (h : HeapLog r.1) (hk : ∀ w, HeapLog w → HeapLog (k w).1) :
+    HeapLog (andThen r k).1 := by
+  unfold andThen; split
+  · exact hk _ h
+  · exact h
+
+theorem hl_swapWithTmp (c : Cfg) (o : Org) (r : World × Outcome) (s : Nat) (h : HeapLog r.1) : HeapLog (swapWithTmp c o r s).1 := by
+  unfold swapWithTmp
+  refine hl_andThen _ _ h ?_
+  intro w hw
+  have hs := hl_pSwap hw c s tmpSlot
+  cases hp : pSwap c w s tmpSlot with
+  | mk w' out => rw [hp] at hs; cases out <;> first | exact hs | exact hl_pDtor hs o tmpSlot
+
+theorem hl_step (c : Cfg) (w : World) (op : Op) (h : HeapLog w) : HeapLog (step c w op).1 := by
+  cases op with
+  | dflt s t al => simp only [step]; split <;> first | exact hl_setImg h _ _ | exact h
+  | dims s t al W H v =>
+    simp only [step]; split
+    · exact hl_andThen _ _ (hl_pCtor h ..) (fun w hw => hl_userFill hw _ _)
+    · exact h
+  | fill s t al W H v => simp only [step]; split <;> first | exact hl_pCtor h .. | exact h
+  | fillprobe s t al W H v =>
+    simp only [step]; split
+    next o ho hs =>
+      have hp := hl_pCtor h c o s (Img.fresh al (c.tagOf t)) W H (List.replicate (W * H) v) none
+      split
+      next w' heq => rw [heq] at hp; exact hl_userFill hp _ _
+      next r hr => exact hp
+    · exact h
+  | fromview s t al s2 =>
+    simp only [step]; split
+    · split <;> first | exact hl_pCtor h .. | exact h
+    · exact h
+  | copy s s2 => simp only [step]; split <;> first | exact hl_pCtor h .. | exact h
+  | move s s2 =>
+    simp only [step]; split
+    · split <;> first | exact hl_setImg (hl_setImg h _ _) _ _ | exact h
+    · exact h
+  | assign s s2 =>
+    simp only [step]; split
+    · unfold stepAssign; split
+      · split
+        · exact hl_setImg h _ _
+        · exact hl_swapWithTmp c _ _ s (hl_pCtor h ..)
+      · exact h
+    · exact h
+  | massign s s2 =>
+    simp only [step]; split
+    next o ho =>
+      split
+      · unfold stepMoveAssign; split
+        · split
+          · exact h
+          · split
+            · exact hl_pAdopt h ..
+            · split
+              · exact h
+              · split
+                · exact hl_pAdopt h ..
+                · split
+                  · exact hl_andThen _ _ (hl_pCtor h ..) (fun w hw => hl_pDtor (hl_pRelease (hl_pAdopt hw ..) ..) ..)
+                  · exact hl_pRelease h ..
+        · exact h
+      · exact h
+    · exact h
+  | swap s s2 =>
+    simp only [step]; split
+    · split <;> first | exact hl_pSwap h .. | exact h
+    · exact h
+  | recreate s W H al fill alloc v =>
+    simp only [step]; split
+    next o ho =>
+      unfold stepRec; split
+      · exact h
+      next i hs =>
+        simp only []
+        split
+        · split <;> first | exact hl_userFill h _ _ | exact h
+        · refine hl_andThen _ _ ?_ ?_
+          · split
+            · exact hl_pReuse (hl_setImg h _ _) ..
+            · exact hl_swapWithTmp c o _ s (hl_pCtor (hl_setImg h _ _) ..)
+          · intro w' hw'; split <;> first | exact hl_userFill hw' _ _ | exact hw'
+    · exact h
+  | write s x y v =>
+    simp only [step]; split
+    · split <;> first | exact hl_setImg h _ _ | exact h
+    · exact h
+  | destroy s => simp only [step]; split <;> first | exact hl_pDtor h .. | exact h
+  | stop =>
+    simp only [step]
+    have : ∀ (l : List Nat) (w : World), HeapLog w → HeapLog (l.foldl (fun w s => match c.orgOf s with | some o => pDtor o w s | none => w) w) := by
+      intro l; induction l with
+      | nil => intro w hw; exact hw
+      | cons a l ih => intro w hw; simp only [List.foldl_cons]; apply ih; split <;> first | exact hl_pDtor hw .. | exact hw
+    exact this slots w h
+  | bad => exact h
+
+theorem hl_run (c : Cfg) (ops : List Op) : ∀ (w : World), HeapLog w → HeapLog (run c w ops) := by
+  induction ops with
+  | nil => intro w h; exact h
+  | cons op rest ih =>
+    intro w h
+    have h1 := hl_step c w op h
+    unfold run
+    cases hs : step c w op with
+    | mk w' out => rw [hs] at h1; cases out <;> first | exact h1 | exact ih w' h1
+
+
+/-! ### ghost replay without a bad block = the Spec's log replay succeeds -/
+
+def GBlock.abs (g : GBlock) : Nat × Nat × Bool := (g.size, g.tag, g.freed == 0)
+
+/-- a bad block stays bad, at the same index -/
+theorem ghostStep_bad_persists (h : List GBlock) (e : Event) (i : Nat) (g : GBlock) (hi : h[i]? = some g) (hb : g.bad = true) :
+    ∃ g', (ghostStep h e)[i]? = some g' ∧ g'.bad = true := by
+  have hlt : i < h.length := by
+    cases hh : h[i]? with
+    | none => rw [hh] at hi; cases hi
+    | some v => exact (List.getElem?_eq_some_iff.mp hh).1
+  cases e with
+  | alloc id n t => exact ⟨g, by simp [ghostStep, List.getElem?_append_left hlt, hi], hb⟩
+  | dealloc b n t =>
+    cases hbb : h[b]? with
+    | none => exact ⟨g, by simp only [ghostStep, hbb]; rw [List.getElem?_append_left hlt]; exact hi, hb⟩
+    | some g0 =>
+      by_cases e : i = b
+      · subst e
+        rw [hi] at hbb; cases hbb
+        refine ⟨{ g with freed := g.freed + 1, bad := g.bad || (g.size != n) || (g.tag != t) || (g.freed != 0) }, ?_, by simp [hb]⟩
+        simp only [ghostStep, hi]; simp [hlt]
+      · exact ⟨g, by simp only [ghostStep, hbb]; rw [List.getElem?_set_ne (Ne.symm e)]; exact hi, hb⟩
+
+theorem foldl_bad_persists (l : List Event) : ∀ (h : List GBlock) (i : Nat) (g : GBlock), h[i]? = some g → g.bad = true →
+    ∃ g', (l.foldl ghostStep h)[i]? = some g' ∧ g'.bad = true := by
+  induction l with
+  | nil => intro h i g hi hb; exact ⟨g, hi, hb⟩
+  | cons e l ih =>
+    intro h i g hi hb
+    obtain ⟨g1, h1, b1⟩ := ghostStep_bad_persists h e i g hi hb
+    exact ih _ i g1 h1 b1
+
+/-- if the ghost replay of a log ends without a bad block, the Spec's replay (`replayLog`: every dealloc must match a live
+    allocation in id, size and allocator; alloc ids are consecutive) accepts the log and reaches the same heap -/
+theorem replayLog_of_no_bad (l : List Event) : ∀ (h : List GBlock), (∀ g ∈ h, g.bad = false ∧ g.freed ≤ 1) →
+    (∀ g ∈ l.foldl ghostStep h, g.bad = false) →
+    replayLog l (h.map GBlock.abs) = some ((l.foldl ghostStep h).map GBlock.abs) := by
+  induction l with
+  | nil => intro h _ _; rfl
+  | cons e l ih =>
+    intro h hh hfin
+    simp only [List.foldl_cons] at hfin ⊢
+    -- the state after this event has no bad block either (bad persists)
+    have hstep : ∀ g ∈ ghostStep h e, g.bad = false := by
+      intro g hg
+      cases hbg : g.bad with
+      | false => rfl
+      | true =>
+        obtain ⟨i, hi⟩ := List.getElem?_of_mem hg
+        obtain ⟨g', hg', hb'⟩ := foldl_bad_persists l (ghostStep h e) i g hi hbg
+        have := hfin g' (List.mem_of_getElem? hg')
+        rw [this] at hb'; cases hb'
+    cases e with
+    | alloc id n t =>
+      have hid : id = h.length := by
+        have := hstep ⟨n, t, 0, id != h.length⟩ (by simp [ghostStep])
+        simpa using this
+      subst hid
+      have hh' : ∀ g ∈ ghostStep h (.alloc h.length n t), g.bad = false ∧ g.freed ≤ 1 := by
+        intro g hg
+        refine ⟨hstep g hg, ?_⟩
+        simp only [ghostStep, List.mem_append, List.mem_singleton] at hg
+        rcases hg with hg | hg
+        · exact (hh g hg).2
+        · subst hg; simp
+      have := ih _ hh' hfin
+      unfold replayLog
+      simp only [List.length_map, if_true]
+      rw [← this]
+      simp [ghostStep, GBlock.abs]
+    | dealloc b n t =>
+      cases hb : h[b]? with
+      | none =>
+        exfalso
+        have := hstep ⟨n, t, 1, true⟩ (by simp [ghostStep, hb])
+        cases this
+      | some g0 =>
+        have hg0 := hh g0 (List.mem_of_getElem? hb)
+        have hnew := hstep { g0 with freed := g0.freed + 1, bad := g0.bad || (g0.size != n) || (g0.tag != t) || (g0.freed != 0) }
+          (by simp only [ghostStep, hb]; exact List.mem_of_getElem? (by
+                have hlt : b < h.length := (List.getElem?_eq_some_iff.mp hb).1
+                simp [hlt] : (h.set b _)[b]? = some _))
+        simp only [Bool.or_eq_false_iff, bne_eq_false_iff_eq] at hnew
+        obtain ⟨⟨⟨_, hsz⟩, htg⟩, hfr⟩ := hnew
+        have hh' : ∀ g ∈ ghostStep h (.dealloc b n t), g.bad = false ∧ g.freed ≤ 1 := by
+          intro g hg
+          refine ⟨hstep g hg, ?_⟩
+          simp only [ghostStep, hb] at hg
+          rcases List.mem_or_eq_of_mem_set hg with hg | hg
+          · exact (hh g hg).2
+          · subst hg; simp [hfr]
+        have := ih _ hh' hfin
+        unfold replayLog
+        simp only [List.getElem?_map, hb, Option.map_some, GBlock.abs, hfr, beq_self_eq_true, hsz, htg, and_self, if_true]
+        rw [← this]
+        simp [ghostStep, hb, List.map_set, GBlock.abs, hfr, hsz, htg]
+
 end GilVerif.Lemmas.C10
